@@ -116,6 +116,11 @@ pub fn dispatch(op: &[Value]) -> Result<Value, String> {
             None => Err("HARNESS: no leaf".to_string()),
         },
         "h_yaml_texts" => yaml_texts(&s(op, 1)),
+        // file-system steps of a fault history (C14): they act on a private copy of Rules/ only
+        "h_write" => std::fs::write(s(op, 1), s(op, 2)).map(|_| Value::Null).map_err(|e| format!("HARNESS: {}", e)),
+        "h_remove" => std::fs::remove_file(s(op, 1)).map(|_| Value::Null).map_err(|e| format!("HARNESS: {}", e)),
+        "h_rename" => std::fs::rename(s(op, 1), s(op, 2)).map(|_| Value::Null).map_err(|e| format!("HARNESS: {}", e)),
+        "h_copy" => std::fs::copy(s(op, 1), s(op, 2)).map(|_| Value::Null).map_err(|e| format!("HARNESS: {}", e)),
         "v_get_braille_norm" => get_braille(denorm(&s(op, 1))).map(Value::String).map_err(e2s),
         "get_spoken_text" => get_spoken_text().map(Value::String).map_err(e2s),
         "get_overview_text" => get_overview_text().map(Value::String).map_err(e2s),
@@ -141,6 +146,7 @@ pub fn dispatch(op: &[Value]) -> Result<Value, String> {
         "v_tts_merge_pauses" => Ok(Value::String(libmathcat::verif::tts::merge_pauses(&s(op, 1), &s(op, 2)))),
         "v_tts_auto_pause" => Ok(Value::String(libmathcat::verif::tts::auto_pause(&s(op, 1), &s(op, 2), &s(op, 3)))),
         "v_prefs_dump" => Ok(json!(libmathcat::verif::prefs::dump().into_iter().map(|(a, b, c, d)| json!([a, b, c, d])).collect::<Vec<_>>())),
+        "v_prefs_files" => Ok(json!(libmathcat::verif::prefs::files().into_iter().map(|(a, b)| json!([a, b])).collect::<Vec<_>>())),
         "v_nav_state" => {
             let (ps, cs, pm, mode, ov) = libmathcat::verif::navigate::nav_state();
             Ok(json!({"ps": ps, "cs": cs, "marks": pm, "mode": mode, "overview": ov, "log": libmathcat::verif::navigate::take_log()}))
@@ -161,6 +167,8 @@ pub fn dispatch(op: &[Value]) -> Result<Value, String> {
         "v_definitions_set" => Ok(json!(libmathcat::verif::canonicalize::definitions_set(&s(op, 1)))),
         "v_take_array_log" => Ok(json!(libmathcat::verif::speech::take_array_log())),
         "v_take_load_log" => Ok(json!(libmathcat::verif::speech::take_load_log())),
+        "v_take_load_log_full" => Ok(json!(libmathcat::verif::speech::take_load_log_full())),
+        "h_sleep" => { std::thread::sleep(std::time::Duration::from_millis(n(op, 1) as u64)); Ok(Value::Null) }
         _ => Err(format!("HARNESS: unknown op '{}'", name)),
     }
 }
